@@ -58,8 +58,16 @@ def uw1(P, C):
          "result type %s / accumulator %s hold 10! = 3628800 (orders <= 5, kernels of <= 6 knots); 13! would overflow 32 bits" % (rt, accs[0][1] if accs else None))
     # call sites in convolve
     cv = [g for g in P.fns("convolve") if g.cls == ts.CLS and g.unit == "driver"][0]
-    args = [cv.render(cv.args(i)[0]).replace(" ", "") for i, cal in cv.calls() if cal and cal["name"] == "factorial"]
-    C.ob("UW-1", "convolve", "factorial-arguments", sorted(args) == sorted(["q", "(k-1)", "((k+q)-1)"]), cv.where(),
+    def by_def(a):
+        # the argument with each local replaced by its defining expression (k := order[dim]+1, q := n-1): independent of the names
+        txt, order = cv.alpha(a)
+        for n_, vid in reversed(list(enumerate(order))):
+            ini = _local_init(cv, vid)
+            txt = txt.replace("v%d" % n_, "{%s}" % (cv.alpha(ini)[0] if ini is not None else "?"))
+        return txt.replace(" ", "")
+    args = [by_def(cv.args(i)[0]) for i, cal in cv.calls() if cal and cal["name"] == "factorial"]
+    K, Q = "{(order[$0]+1)}", "{($2-1)}"
+    C.ob("UW-1", "convolve", "factorial-arguments", sorted(args) == sorted([Q, "(%s-1)" % K, "((%s+%s)-1)" % (K, Q)]), cv.where(),
          "convolve evaluates q!(k-1)!/(k+q-1)!: factorial called with %s (k-1 is 0 for an order-0 dimension)" % args)
 
 
@@ -175,33 +183,131 @@ def uw2(P, C):
     return post
 
 
+def canonical_loop(f, L):
+    """ForStmt `for (T v = 0; v < B; v++)` (or ++v) whose body neither breaks nor continues: (decl id of v, rendered B) else None"""
+    n = f.nodes[L]
+    if n["k"] != "ForStmt" or n.get("init", -1) < 0 or n.get("cond", -1) < 0 or n.get("inc", -1) < 0:
+        return None
+    ini = f.nodes[n["init"]]
+    if ini["k"] != "DeclStmt" or len(ini["decls"]) != 1 or ini["decls"][0].get("init", -1) < 0 or f.nodes[f.strip(ini["decls"][0]["init"])].get("cv") != 0:
+        return None
+    vid = ini["decls"][0]["id"]
+    c = f.nodes[f.strip(n["cond"])]
+    if c["k"] != "BinaryOperator" or c["op"] != "<":
+        return None
+    lv = f.strip(c["ch"][0])
+    if f.k(lv) != "DeclRefExpr" or f.nodes[lv]["decl"]["id"] != vid:
+        return None
+    inc = f.nodes[f.strip(n["inc"])]
+    if inc["k"] != "UnaryOperator" or inc["op"] != "++":
+        return None
+    iv = f.strip(inc["ch"][0])
+    if f.k(iv) != "DeclRefExpr" or f.nodes[iv]["decl"]["id"] != vid:
+        return None
+    if any(f.k(x) in ("BreakStmt", "ContinueStmt", "GotoStmt", "ReturnStmt") for x in f.walk(n["body"])):
+        return None
+    # the loop variable is not written in the body
+    for x in f.walk(n["body"]):
+        ap = ts.assign_parts(f, x)
+        if ap:
+            t = f.strip(ap[0])
+            if f.k(t) == "DeclRefExpr" and f.nodes[t]["decl"]["id"] == vid:
+                return None
+    return vid, f.render(c["ch"][1]).replace("this->", "").replace(" ", "")
+
+
+def _nest(f, node):
+    """canonical loops enclosing node, outermost first, or None if any enclosing loop/branch is not a plain counting loop"""
+    out = []
+    for a in f.ancestors(node):
+        k = f.k(a)
+        if k in ("IfStmt", "WhileStmt", "DoStmt", "SwitchStmt", "ConditionalOperator"):
+            return None
+        if k == "ForStmt":
+            cl = canonical_loop(f, a)
+            if cl is None:
+                return None
+            out.append(cl)
+    return list(reversed(out))
+
+
+def _local_init(f, vid):
+    for d in f.walk():
+        if f.k(d) == "DeclStmt":
+            for dd in f.nodes[d]["decls"]:
+                if dd.get("id") == vid and dd.get("init", -1) >= 0:
+                    return dd["init"]
+    return None
+
+
+def _bound_decl(f, L):
+    """declaration id of the variable (or array) the loop bound reads: v < B or v < B[...]; ('member', name) for a member"""
+    b = f.strip(f.nodes[f.strip(f.nodes[L]["cond"])]["ch"][1])
+    r = ts.root_member(f, b)
+    if r:
+        return ("member", r[0])
+    while f.k(b) in ("ArraySubscriptExpr", "CXXOperatorCallExpr"):
+        ch = f.nodes[b]["ch"]
+        b = f.strip(ch[1] if f.k(b) == "CXXOperatorCallExpr" and len(ch) > 2 else ch[0])
+    if f.k(b) == "DeclRefExpr":
+        return ("local", f.nodes[b]["decl"]["id"])
+    return ("?", f.render(b))
+
+
 def uw4(P, C):
-    C.rule("UW-4", "the transfer matrix is computed for every (new spline, old spline) pair — a perfect loop nest over naxes'[dim] x naxes[dim] "
-           "whose body assigns trafo[i*old + j] = norm * convoluted_blossom(&knots[dim][j], k+1, kernel, n, rho[i], &rho[i+1], k+q-1) — and "
-           "applied to every slice by a perfect 4-level nest; no entry is skipped", floor=2)
+    C.rule("UW-4", "the transfer matrix is computed for every (new spline, old spline) pair — one store, inside a perfect nest of two plain "
+           "counting loops 0..new count and 0..old count with no branch, break or continue, trafo[i*old + j] = norm * convoluted_blossom("
+           "&knots[dim][j], k+1, kernel, n, rho[i], &rho[i+1], k+q-1) with k = order[dim]+1 and q = n-1 — and applied to every slice by a "
+           "perfect 4-level nest; variables are identified by declaration and role, not by name", floor=2)
     f = [g for g in P.fns("convolve") if g.cls == ts.CLS and g.unit == "driver"][0]
-    fill = [i for i in f.walk() if ts.assign_parts(f, i) and f.render(ts.assign_parts(f, i)[0]).startswith("trafo[")]
+    fill = [i for i in f.walk() if ts.assign_parts(f, i) and f.k(i) in ("BinaryOperator", "CXXOperatorCallExpr") and
+            "convoluted_blossom" in f.render(i) and not any(ts.assign_parts(f, a) for a in f.ancestors(i))]
     ok = False
-    det = "%d stores into the transfer matrix" % len(fill)
+    trafo_id = None
+    det = "%d stores of a blossom" % len(fill)
     if len(fill) == 1:
-        a = fill[0]
-        loops = [x for x in f.ancestors(a) if f.k(x) == "ForStmt"]
-        conds = [x for x in f.ancestors(a) if f.k(x) == "IfStmt"]
-        txt = f.alpha(loops[-1])[0].replace(" ", "") if loops else ""
-        want = ("ForStmt(uint32_tv0=0,(v0<v1[$0]),(v0++),CompoundStmt(ForStmt(uint32_tv2=0,(v2<naxes[$0]),(v2++),CompoundStmt((v3[((v0*naxes[$0])+v2)]="
-                "(v4*convoluted_blossom((&knots[$0][v2]),(v5+1),$1,$2,v6[v0],(&v6[(v0+1)]),((v5+v7)-1))))))))")
-        ok = len(loops) == 2 and not conds and txt == want
-        det = "fill nest %s" % ("matches" if txt == want else txt[:260])
+        nest = _nest(f, fill[0])
+        loops = [a for a in f.ancestors(fill[0]) if f.k(a) == "ForStmt"]
+        if nest is None or len(nest) != 2:
+            det = "the store is not inside a perfect nest of two counting loops (a branch, break, continue or irregular loop encloses it)"
+        else:
+            (vi, _), (vj, _) = nest
+            txt, order = f.alpha(fill[0])
+            txt = txt.replace(" ", "")
+            want = "(v0[((v1*naxes[$0])+v2)]=(v3*convoluted_blossom((&knots[$0][v2]),(v4+1),$1,$2,v5[v1],(&v5[(v1+1)]),((v4+v6)-1))))"
+            roles = len(order) == 7 and order[1] == vi and order[2] == vj
+            kdef = qdef = ""
+            if len(order) == 7:
+                ki, qi = _local_init(f, order[4]), _local_init(f, order[6])
+                kdef = f.alpha(ki)[0].replace(" ", "") if ki is not None else "?"
+                qdef = f.alpha(qi)[0].replace(" ", "") if qi is not None else "?"
+                trafo_id = order[0]
+            bo, bi_ = _bound_decl(f, loops[-1]), _bound_decl(f, loops[0])
+            ok = txt == want and roles and kdef == "(order[$0]+1)" and qdef == "($2-1)" and bo[0] == "local" and bi_ == ("member", "naxes")
+            det = "statement %s; loop roles %s; k := %s, q := %s; outer bound %s, inner bound %s" % (
+                "matches" if txt == want else txt[:200], "ok" if roles else "WRONG", kdef, qdef, bo[0], bi_)
     C.ob("UW-4", "convolve", "transfer-matrix-complete", ok, f.loc(fill[0]) if fill else f.where(), det)
-    app = [i for i in f.walk() if f.k(i) == "CompoundAssignOperator" and f.nodes[i]["op"] == "+=" and f.render(f.nodes[i]["ch"][0]).startswith("coefficients[")]
+    app = [i for i in f.walk() if f.k(i) in ("CompoundAssignOperator", "CXXOperatorCallExpr") and f.nodes[i].get("op", f.nodes[i].get("opcall")) == "+=" and
+           ts.root_member(f, f.nodes[i]["ch"][-1] if f.k(i) == "CompoundAssignOperator" else f.nodes[i]["ch"][-1]) is None and
+           "coefficients[" in f.render(f.nodes[i]["ch"][-1]).replace("this->", "")]
     ok2 = False
-    det2 = "%d accumulate statements" % len(app)
+    det2 = "%d accumulate statements over the old coefficients" % len(app)
     if len(app) == 1:
-        loops = [x for x in f.ancestors(app[0]) if f.k(x) == "ForStmt"]
-        conds = [x for x in f.ancestors(app[0]) if f.k(x) == "IfStmt"]
-        txt = f.alpha(loops[-1])[0].replace(" ", "") if loops else ""
-        want = ("ForStmt(uint32_tv0=0,(v0<v1),(v0++),ForStmt(uint32_tv2=0,(v2<v3[$0]),(v2++),ForStmt(uint32_tv4=0,(v4<naxes[$0]),(v4++),"
-                "ForStmt(uint32_tv5=0,(v5<v6),(v5++),(v7[((((v0*v6)*v3[$0])+(v2*v6))+v5)]+=(v8[((v2*naxes[$0])+v4)]*coefficients[((((v0*v6)*naxes[$0])+(v4*v6))+v5)]))))))")
-        ok2 = len(loops) == 4 and not conds and txt == want
-        det2 = "apply nest %s" % ("matches" if txt == want else txt[:300])
+        nest = _nest(f, app[0])
+        loops = list(reversed([a for a in f.ancestors(app[0]) if f.k(a) == "ForStmt"]))
+        if nest is None or len(nest) != 4:
+            det2 = "the accumulation is not inside a perfect nest of four counting loops"
+        else:
+            ids = [v for v, _ in nest]
+            txt, order = f.alpha(app[0])
+            txt = txt.replace(" ", "")
+            want = "(v0[((((v1*v2)*v3[$0])+(v4*v2))+v5)]+=(v6[((v4*naxes[$0])+v7)]*coefficients[((((v1*v2)*naxes[$0])+(v7*v2))+v5)]))"
+            roles = len(order) == 8 and ids == [order[1], order[4], order[7], order[5]]
+            bounds = [_bound_decl(f, L) for L in loops]
+            bok = len(order) == 8 and bounds[1] == ("local", order[3]) and bounds[2] == ("member", "naxes") and bounds[3] == ("local", order[2]) and \
+                bounds[0][0] == "local" and bounds[0][1] not in order
+            same_trafo = len(order) == 8 and order[6] == trafo_id
+            ok2 = txt == want and roles and bok and same_trafo
+            det2 = "statement %s; loop roles %s; bounds %s; multiplies by the matrix filled above: %s" % (
+                "matches" if txt == want else txt[:260], "ok" if roles else "WRONG", "ok" if bok else bounds, same_trafo)
     C.ob("UW-4", "convolve", "applied-to-every-slice", ok2, f.loc(app[0]) if app else f.where(), det2)
